@@ -146,7 +146,7 @@ def stored_signature(db='default'):
 
 
 def d2(app_label, evolutions, db='default', tracer=None, hinted=False,
-       purge=False, extra_apps=()):
+       purge=False, extra_apps=(), abort=True):
     """Evolver + EvolveAppTask with in-memory custom evolutions
     ([{'label':..., 'mutations': [...]}]); the production path including
     prepare() followed by _build_batches().  The current (target) models
@@ -174,7 +174,8 @@ def d2(app_label, evolutions, db='default', tracer=None, hinted=False,
     except Exception as e:  # noqa
         res.exc = e
         res.exc_type = type(e).__name__
-        _abort_transactions(db)
+        if abort:
+            _abort_transactions(db)
     res.statements = tracer.effects()
     return res
 
